@@ -28,6 +28,18 @@ func registerURLIntrinsics() {
 	intrinsics["net/url.PathEscape"] = inPathEscape
 	intrinsics["(net/url.Values).Encode"] = inValuesEncode
 	intrinsics["(*net/url.URL).String"] = inURLString
+	// contract: Redacted() == String() for a URL without user information
+	intrinsics["(*net/url.URL).Redacted"] = func(e *Exec, args []Value, site *ssa.CallCommon) Value {
+		p := args[0].(*PtrV)
+		if p.c == nil {
+			return e.constString("")
+		}
+		f := e.urlFields(p.c.typ)
+		if up, ok := p.c.kids[f["User"]].v.(*PtrV); ok && up.c != nil {
+			panic(e.unsupported("URL.Redacted with user information"))
+		}
+		return inURLString(e, args, site)
+	}
 	intrinsics["net/url.Parse"] = inURLParse
 	intrinsics["(*net/url.URL).Query"] = inURLQuery
 }
